@@ -470,14 +470,18 @@ package client
 //@   modifies c.subChannelFundings.entries[*]
 
 // Virtual channel funding/settlement requests are accepted automatically (acceptProposal / hand-over to the settlement watcher)
-// only after their validation succeeded; every path answers the request at most once.
+// only after their validation succeeded; every path answers the request at most once. These handlers run while handleUpdateReq
+// holds the parent channel's machine mutex, so every wait in them (for the matching proposal, for sending the response) must be
+// bounded: the context they pass carries a deadline (bounded(ctx): made by context.WithTimeout/WithDeadline).
 //@ func (*Client).rejectProposal
 //@   requires c != nil && c.log != nil && respOK(responder) && sent(responder.done) == 0
-//@   modifies ghost("sends")
+//@   modifies ghost("sends"), ghost("ctxbounded")
+//@   callsite (*UpdateResponder).Reject : bounded(ctx)
 //@   ensures sent(responder.done) == 1
 //@ func (*Client).acceptProposal
 //@   requires c != nil && c.log != nil && respOK(responder) && sent(responder.done) == 0
-//@   modifies mach(responder.channel).*, mach(responder.channel).prevTXs[*], responder.channel.parent.subChannelWithdrawals.entries[*], ghost("sends")
+//@   modifies mach(responder.channel).*, mach(responder.channel).prevTXs[*], responder.channel.parent.subChannelWithdrawals.entries[*], ghost("sends"), ghost("ctxbounded")
+//@   callsite (*UpdateResponder).Accept : bounded(ctx)
 //@   ensures sent(responder.done) == 1
 
 // The watchers pair the funding/settlement proposals of the two parent channels (goroutines, channels: trusted frame).
@@ -488,14 +492,15 @@ package client
 
 //@ func (*Client).handleVirtualChannelFundingProposal
 //@   requires c != nil && c.log != nil && c.fundingWatcher != nil && fundPropDecoded(prop) && respOK(responder) && responder.channel == ch && sent(responder.done) == 0
-//@   modifies mach(ch).*, mach(ch).prevTXs[*], ch.parent.subChannelWithdrawals.entries[*], ghost("sends")
+//@   modifies mach(ch).*, mach(ch).prevTXs[*], ch.parent.subChannelWithdrawals.entries[*], ghost("sends"), ghost("ctxbounded")
 //@   callsite (*Client).acceptProposal : old(fundingOK(ch, prop))
+//@   callsite (*stateWatcher).Await : bounded(ctx)
 //@   ensures sent(responder.done) == 1
 
 //@ func (*Client).handleVirtualChannelSettlementProposal
 //@   requires c != nil && c.log != nil && c.settlementWatcher != nil && settlePropDecoded(prop) && respOK(responder) && responder.channel == parent && sent(responder.done) == 0
-//@   modifies mach(parent).*, mach(parent).prevTXs[*], parent.parent.subChannelWithdrawals.entries[*], ghost("sends")
-//@   callsite (*stateWatcher).Await : old(settleOK(parent, prop))
+//@   modifies mach(parent).*, mach(parent).prevTXs[*], parent.parent.subChannelWithdrawals.entries[*], ghost("sends"), ghost("ctxbounded")
+//@   callsite (*stateWatcher).Await : old(settleOK(parent, prop)) && bounded(ctx)
 //@   ensures sent(responder.done) <= 1
 
 // handleUpdateReq: the machine mutex is held for the whole handling and released at the end; CheckUpdate comes first; every
@@ -526,6 +531,9 @@ package client
 //@ func (*Client).handleSyncMsg
 //@   requires c != nil && c.log != nil && syncDecoded(msg)
 //@   modifies *
+//@   callsite (*clientConn).pubMsg : bounded(ctx) && held(&ch.machMtx)
+//@   callsite (*Mutex).TryLockCtx : bounded(ctx)
+//@   ensures forall ch *Channel :: old(!held(&ch.machMtx)) ==> !held(&ch.machMtx)
 
 // ---------------------------------------------------------------------------
 // Update protocol, per party (C06): what each side's machine looks like when the protocol function returns.
